@@ -143,7 +143,7 @@ struct SimAlloc {
 
 // ---------------------------------------------------------------- Data
 enum InputClass { IN_EMPTY = 0, IN_ONE, IN_RANDOM, IN_ZEROS, IN_RUNS, IN_TEXT,
-	IN_REPEAT_FAR, IN_X86ISH, IN_MIXED, IN_SPARSE, IN_CLASS_COUNT };
+	IN_REPEAT_FAR, IN_X86ISH, IN_MIXED, IN_SPARSE, IN_LOWENT, IN_CLASS_COUNT };
 const char *input_class_name(int c);
 // deterministic in (cls, len, seed)
 Bytes gen_input(int cls, size_t len, uint64_t seed);
